@@ -24,4 +24,5 @@ echo "--- checks against patched tree"
 for c in "$@"; do
   VERIF_REPO="$dir" /verif/check "$c" --tier "${TIER:-quick}" 2>&1 | grep -E "^(VIOLATION|OK|\[check\] INCONCL|\[check\] harness build failed)|failed after|panic after" | head -4 | cut -c1-400
 done
-rm -rf "$dir" /verif/.build/props-*.test
+tag=$(python3 -c "import hashlib,sys;print(hashlib.sha1(sys.argv[1].encode()).hexdigest()[:8])" "$dir")
+rm -rf "$dir" "/verif/.build/props-$tag.test"
